@@ -232,6 +232,29 @@ def _classify(repo, r, fn, param, what, node, q, ref_stored, depth):
                 _classify(repo, r, callee, p2, what + ' -> %s(%s)' % (callee.name if callee.name != '__init__' else detail[0], p2), n, q, ref_stored, depth + 1)
 
 
+def _name_only_looked_up(mod, name):
+    '''a module-level name that is bound once and only read by lookups (membership, indexing, .get/.keys/.values/.items, iteration)'''
+    stores = [n for n in ast.walk(mod.tree) if isinstance(n, ast.Name) and n.id == name and isinstance(n.ctx, (ast.Store, ast.Del))]
+    if len(stores) != 1:
+        return False
+    for n in ast.walk(mod.tree):
+        if isinstance(n, (ast.Global, ast.Nonlocal)) and name in n.names:
+            return False
+        if isinstance(n, ast.Name) and n.id == name and isinstance(n.ctx, ast.Load):
+            p_ = getattr(n, '_parent', None)
+            if isinstance(p_, ast.Subscript) and p_.value is n and isinstance(p_.ctx, ast.Load):
+                continue
+            if isinstance(p_, ast.Attribute) and p_.value is n and p_.attr in ('get', 'keys', 'values', 'items') and \
+                    isinstance(getattr(p_, '_parent', None), ast.Call):
+                continue
+            if isinstance(p_, ast.Compare) and n in p_.comparators:
+                continue
+            if isinstance(p_, (ast.For, ast.comprehension)) and p_.iter is n:
+                continue
+            return False
+    return True
+
+
 def _only_looked_up(mod, name):
     '''every occurrence of <x>.name in the module is a read that cannot let the object escape or change'''
     occ = [n for n in ast.walk(mod.tree) if isinstance(n, ast.Attribute) and n.attr == name]
@@ -290,6 +313,9 @@ def fresh(ctx):
         # module-level mutable state
         for st in repo.module(modname).tree.body:
             if isinstance(st, ast.Assign) and isinstance(st.value, (ast.List, ast.Dict, ast.Set)):
+                if len(st.targets) == 1 and isinstance(st.targets[0], ast.Name) and _name_only_looked_up(repo.module(modname), st.targets[0].id):
+                    r.ok('module level table `%s` of %s is only read' % (st.targets[0].id, modname), st, construct=modname + '|' + st.targets[0].id)
+                    continue
                 r.violation('module level mutable `%s` in %s' % (src(st.targets[0]), modname), st, construct=modname, key='module-state ' + src(st.targets[0]))
     mi = repo.func('xtuml.meta:MetaClass.__init__')
     r.check(pm.contains('self.clazz = type(str(kind), (Class,), dict(__metaclass__=self))', mi), 'every MetaClass creates its own instance class', mi,
